@@ -861,3 +861,7 @@ Definition compile_with (validate : list str -> option str) (name : str) (rows :
 Definition compile : str -> list crow -> res flow := compile_with compile_flow_validation.
 
 End Supply.
+
+(* an executable uuid supply: one pseudo-character above the Unicode range, so that an invented identifier is
+   never equal to a string of the input *)
+Definition std_fresh (k : nat) : id := [(1114112 + N.of_nat k)%N].
